@@ -573,6 +573,53 @@ fn gen_what(rng: &mut Rng, pending: u8) -> What {
     }
 }
 
+/// `IceGatherer::probe_stun` (server-reflexive gathering) against a scripted STUN server: only a Binding
+/// success response carrying the probe's own transaction id may be honoured.
+fn probe_cases(env: &mut Env, run: &mut Run, rng: &mut Rng, thorough: bool) {
+    let server = env.rt.block_on(async { UdpSocket::bind("127.0.0.1:0").await.unwrap() });
+    let server_addr = server.local_addr().unwrap();
+    let variants = ["genuine", "other-transaction-id", "error-class", "other-method", "indication", "request-echo", "no-mapped-address", "flipped-id-bit"];
+    let n = if thorough { 40 } else { 6 };
+    for round in 0..n { for (vi, v) in variants.iter().enumerate() {
+        let (transport, _r) = IceTransport::new(rustrtc::RtcConfiguration::default());
+        let before = transport.verif_registered_socket_count();
+        let mapped: SocketAddr = format!("203.0.113.{}:{}", 1 + rng.below(250), 1024 + rng.below(60000)).parse().unwrap();
+        let t = transport.clone();
+        let (res, (req, reply)) = env.rt.block_on(async {
+            let srv = async {
+                let mut buf = [0u8; 2048];
+                let Ok(Ok((n, from))) = tokio::time::timeout(Duration::from_secs(2), server.recv_from(&mut buf)).await else { return (vec![], vec![]) };
+                let req = buf[..n].to_vec();
+                let mut tx: [u8; 12] = req[8..20].try_into().unwrap();
+                let (cls, meth) = match *v { "error-class" => (StunClass::ErrorResponse, StunMethod::Binding), "other-method" => (StunClass::SuccessResponse, StunMethod::Allocate),
+                    "indication" => (StunClass::Indication, StunMethod::Binding), "request-echo" => (StunClass::Request, StunMethod::Binding), _ => (StunClass::SuccessResponse, StunMethod::Binding) };
+                if *v == "other-transaction-id" { tx = [0x42; 12]; }
+                if *v == "flipped-id-bit" { tx[11] ^= 1; }
+                let attrs = if *v == "no-mapped-address" { vec![] } else { vec![StunAttribute::XorMappedAddress(mapped)] };
+                let reply = StunMessage { class: cls, method: meth, transaction_id: tx, attributes: attrs }.encode(None, true).unwrap();
+                let _ = server.send_to(&reply, from).await;
+                (req, reply)
+            };
+            tokio::join!(t.verif_probe_stun(server_addr), srv)
+        });
+        if req.is_empty() { run.count("probe_request_not_seen"); continue; }
+        let got = match &res { Ok(Some(c)) => format!("some {}", addr3(&c.address)), Ok(None) => "none".to_string(), Err(_) => "none".to_string() };
+        let registered = transport.verif_registered_socket_count() > before;
+        run.case("probe", &format!("{} {}", hex(&req[8..20]), hex(&reply)), &got, got != "none");
+        run.count(&format!("probe_{v}_{}", got.split(' ').next().unwrap()));
+        let honoured = got != "none" || registered;
+        if honoured && vi != 0 { run.fail(&format!("response:honoured-without-matching-transaction:probe-stun:{v}"), &format!("probe {v}"), &format!("{got} registered={registered}")); }
+        if vi == 0 && (got != format!("some {}", addr3(&mapped)) || !registered) { run.fail("response:genuine-probe-response-not-honoured", &format!("probe {v}"), &got); }
+        // the probe request itself (a message the agent composes): Binding request, SOFTWARE, FINGERPRINT, no credentials
+        let mut m = stun::message::Message::new(); m.raw = req.clone();
+        if m.decode().is_err() || m.typ != stun::message::BINDING_REQUEST || stun::fingerprint::FINGERPRINT.check(&m).is_err()
+            || m.get(stun::attributes::ATTR_SOFTWARE).ok().as_deref() != Some(b"rustrtc") || m.contains(stun::attributes::ATTR_MESSAGE_INTEGRITY) {
+            run.fail("probe-request:malformed", &format!("probe {v}"), &hex(&req)); }
+        transport.stop();
+        let _ = round;
+    }}
+}
+
 fn gen_tick_case(rng: &mut Rng) -> Case {
     // Connected / Disconnected transports with a selected pair, datagrams of all kinds interleaved with ticks
     let mut c = gen_case(rng);
@@ -713,6 +760,7 @@ pub fn run(args: &Args) {
         run_batch(&mut env, &mut run, batch, false);
     }
     raw_auth_stream(&mut env, &mut run, &mut rng, args.tier_thorough);
+    probe_cases(&mut env, &mut run, &mut rng, args.tier_thorough);
     run.exhaustive = true;
     run.notes.insert("exhaustive_scope".into(), serde_json::json!("request matrix USERNAME{none,wrong,correct} x MESSAGE-INTEGRITY{none,corrupted,wrong-key,correct,remote-password} x ±USE-CANDIDATE x known/unknown source x all 7 transport states x {controlled,controlling} x {UDP, shared UDP mux, TCP listener, accepted TCP stream, TURN relay}; 28 malformed credential layouts; liveness matrix {Connected,Disconnected} x timeouts x remote-params x mode x selected pair x 12 datagram kinds x 2 sources followed by two keepalive ticks; responses {pending, second pending, unknown id} x {success,error} x 3 repetitions x roles x states"));
     run.finish();
